@@ -39,9 +39,11 @@ Print Assumptions c10_errors.
 
 (* PARTIAL.  Full statement of DESIGN (c10_involutive):
      inverse n n A = Ok B -> exists A', inverse n n B = Ok A' /\ forall i j < n, A' i j = A i j.
-   It is FALSE for the model even in exact arithmetic: the pivot test of plu is the absolute
-   threshold |pivot| < EPSILON, so e.g. A = [[2^60]] has B = [[2^-60]] and inverse B is refused
-   as singular.  Proved: whenever the second inversion succeeds it returns A. *)
+   It is FALSE for the model even in exact arithmetic, also after the repair d0c7441: the pivot
+   test |pivot| <= EPSILON * n * max|entry| is relative to the largest entry, and the inverse of an
+   accepted matrix can have a pivot below its own threshold (counterexample below: A = [[0,1],[1,2^30]],
+   B = [[-2^30,1],[1,0]] with pivots 2^30 and 2^-30 against the threshold 2^-21).
+   Proved: whenever the second inversion succeeds it returns A. *)
 Theorem c10_involutive_partial : forall (n : nat) (A B A' : mat R),
   inverse n n A = Ok B -> inverse n n B = Ok A' ->
   forall i j, (i < n)%nat -> (j < n)%nat -> A' i j = A i j.
@@ -53,10 +55,10 @@ Print Assumptions c10_involutive_partial.
 
 (* ... and the full statement does fail: a matrix whose inverse is returned but cannot be inverted back *)
 Theorem c10_involutive_counterexample :
-  exists A B : mat R, inverse 1 1 A = Ok B /\ inverse 1 1 B = Err ESingularMatrix.
+  exists A B : mat R, inverse 2 2 A = Ok B /\ inverse 2 2 B = Err ESingularMatrix.
 Proof. exact Proofs.Inverse.c10_involutive_counterexample. Qed.
 Check c10_involutive_counterexample :
-  exists A B : mat R, inverse 1 1 A = Ok B /\ inverse 1 1 B = Err ESingularMatrix.
+  exists A B : mat R, inverse 2 2 A = Ok B /\ inverse 2 2 B = Err ESingularMatrix.
 Print Assumptions c10_involutive_counterexample.
 
 (* non-vacuity: [[0,1],[1,0]], whose factorisation needs a row interchange, is inverted *)
